@@ -1,5 +1,6 @@
 import NunavutVerif.Model.Dsdl
 import NunavutVerif.Model.GenC
+import NunavutVerif.Model.GenCX
 import NunavutVerif.Proto
 /-!
 Driver `genc`: the codec line protocol (`harness/CODEC_PROTOCOL.md`) answered by the implementation-shaped model
@@ -14,6 +15,13 @@ Driver `genc`: the codec line protocol (`harness/CODEC_PROTOCOL.md`) answered by
 `,asserts` (enable_serialization_asserts: a failing NUNAVUT_ASSERT is answered `err:assert`) and
 `,orc=never` (oracle that never claims alignment; default: the exact oracle).  A model-level failure of a primitive
 (never expected; proved unreachable) is answered `err:prim-<name>`.
+
+Round 2 (`Model/GenCX.lean`; any of these options routes the request through `serializeCX` / `deserializeCX`):
+`,place=above|below|far` evaluates the address assertions of `nunavutCopyBits` with the buffer at address 4096 and
+every other object (primitive locals, member arrays) directly above the buffer / directly below it / far away;
+`,beforefix` uses the overlap assertions as they were before /repo 443d39c, `,hg` guards `src != dst` by
+`length_bits > 0`; `,ovr=<c>` is `enable_override_variable_array_capacity` with every non-bool variable-length array
+capacity macro defined as `min(c, DSDL capacity)`, `,nocheck` = `<T>_DISABLE_SERIALIZATION_BUFFER_CHECK_` defined.
 
 The request syntax (types, values, hex) is that of `Drivers/Codec.lean`; the parser below is a copy of that file's
 (a driver module defines `main` and cannot be imported).
@@ -205,21 +213,53 @@ def showSerC : Except GenC.Err (Bits.Buf × Nat) → String
 
 def neverOrc : AOff → Bool := fun _ => false
 
-/-- `@any`, `@little`, `@little,fill=255,orc=never` -/
-def parseOpts (s : String) : Option Opts :=
+/-- the round-2 options (addresses, capacity override); `none`/`false` everywhere = `Model/GenC.lean` as before -/
+structure XMode where
+  place : Option String := none
+  fixed : Bool := true
+  hg : Bool := false
+  ovr : Option Nat := none
+  noCheck : Bool := false
+
+def XMode.active (m : XMode) : Bool := m.place.isSome || m.ovr.isSome || m.noCheck || !m.fixed || m.hg
+
+/-- address of the user's buffer in the driver's placements -/
+def bufBase : Nat := 4096
+
+def XMode.ext (m : XMode) (L0 : Nat) : GenC.Ext :=
+  { addrs := m.place.isSome
+    adr := fun _ _ _ sz =>
+      if m.place = some "above" then bufBase + L0
+      else if m.place = some "below" then bufBase - sz
+      else 1000000
+    fixed := m.fixed
+    headGuarded := m.hg
+    ovr := m.ovr.isSome
+    ucap := fun _ c => match m.ovr with
+      | some u => if u < c then u else c
+      | none => c
+    noCheck := m.noCheck }
+
+/-- `@any`, `@little`, `@little,fill=255,orc=never`, `@any,asserts,place=above`, `@little,ovr=2` -/
+def parseOpts (s : String) : Option (Opts × XMode) :=
   match (s.drop 1).toString.splitOn "," with
   | [] => none
   | e :: rest =>
-    let base : Option Opts :=
-      if e = "any" then some { little := false, orc := exactOrc }
-      else if e = "little" then some { little := true, orc := exactOrc }
+    let base : Option (Opts × XMode) :=
+      if e = "any" then some ({ little := false, orc := exactOrc }, {})
+      else if e = "little" then some ({ little := true, orc := exactOrc }, {})
       else none
-    rest.foldl (fun acc kv => acc.bind fun o =>
+    rest.foldl (fun acc kv => acc.bind fun (o, m) =>
       match kv.splitOn "=" with
-      | ["fill", n] => n.toNat?.map fun n => { o with fill := n }
-      | ["asserts"] => some { o with asserts := true }
-      | ["orc", "never"] => some { o with orc := neverOrc }
-      | ["orc", "exact"] => some o
+      | ["fill", n] => n.toNat?.map fun n => ({ o with fill := n }, m)
+      | ["asserts"] => some ({ o with asserts := true }, m)
+      | ["orc", "never"] => some ({ o with orc := neverOrc }, m)
+      | ["orc", "exact"] => some (o, m)
+      | ["place", p] => if p = "above" || p = "below" || p = "far" then some (o, { m with place := some p }) else none
+      | ["beforefix"] => some (o, { m with fixed := false })
+      | ["hg"] => some (o, { m with hg := true })
+      | ["ovr", n] => n.toNat?.map fun n => (o, { m with ovr := some n })
+      | ["nocheck"] => some (o, { m with noCheck := true })
       | _ => none) base
 
 /-! ### Static helper selection (structural tie with the generated text) -/
@@ -306,29 +346,45 @@ def pathsDeTop (o : Opts) : Ty → List String
       (fs.flatMap fun f => "opt" :: pathsDeAny o f (AOff.single (tagBits fs.length))) ++ ["pad"]
   | _ => ["?"]
 
-def answerWith (o : Opts) (req : List Sx) : String :=
+/-- the address assertions of `nunavutCopyBits` the model `GenC.copyAsserts` stands for, as C text (structural tie:
+compared with the `NUNAVUT_ASSERT`s about `src`/`dst`/`psrc`/`pdst` in the generated `serialization.h`) -/
+def addrAssertTexts (m : XMode) : List String :=
+  let g := if m.fixed then "(length_bits > 0U) && " else ""
+  let p (c : String) := if m.fixed then "(" ++ g ++ "(" ++ c ++ "))" else "(" ++ c ++ ")"
+  [ (if m.hg then "(length_bits == 0U) || (src != dst)" else "src != dst"),
+    "(" ++ p "psrc < pdst" ++ " ? ((uintptr_t)(psrc + ((src_offset_bits + length_bits + 7U) / 8U)) <= (uintptr_t)pdst) : 1)",
+    "(" ++ p "psrc > pdst" ++ " ? ((uintptr_t)(pdst + ((dst_offset_bits + length_bits + 7U) / 8U)) <= (uintptr_t)psrc) : 1)" ]
+
+def serRun (o : Opts) (m : XMode) (t : Ty) (v : Val) (buf : List Nat) (cap : Nat) :=
+  if m.active then serializeCX o (m.ext buf.length) bufBase t v buf cap else serializeC o t v buf cap
+
+def deRun (o : Opts) (m : XMode) (t : Ty) (buf : List Nat) (cap : Nat) :=
+  if m.active then deserializeCX o (m.ext buf.length) bufBase t buf cap else deserializeC o t buf cap
+
+def answerWith (o : Opts) (m : XMode) (req : List Sx) : String :=
   match req with
   | [Sx.atom "ser", t, v] =>
     match toTy t with
     | some t => match toVal t v with
       | some v =>
         let cap := (maxBits (topInner t) + 7) / 8
-        showSerC (serializeC o t v (List.replicate cap 255) cap)
+        showSerC (serRun o m t v (List.replicate cap 255) cap)
       | none => "bad-op"
     | none => "bad-op"
   | [Sx.atom "serbuf", t, v, Sx.atom cap] =>
     match toTy t, cap.toNat? with
     | some t, some cap => match toVal t v with
-      | some v => showSerC (serializeC o t v (List.replicate cap 85) cap)
+      | some v => showSerC (serRun o m t v (List.replicate cap 85) cap)
       | none => "bad-op"
     | _, _ => "bad-op"
   | [Sx.atom "de", t, Sx.atom hex] =>
     match toTy t, parseHexBytes hex with
     | some t, some bytes =>
-      match deserializeC o t bytes bytes.length with
+      match deRun o m t bytes bytes.length with
       | .ok (v, n) => "ok " ++ showVal v ++ " " ++ toString n
       | .error e => showErr e
     | _, _ => "bad-op"
+  | [Sx.atom "addrasserts"] => "ok " ++ " ;; ".intercalate (addrAssertTexts m)
   | [Sx.atom "paths", Sx.atom dir, t] =>
     match toTy t with
     | some t =>
@@ -342,12 +398,12 @@ def answer (line : String) : String :=
     match line.splitOn " " with
     | optTok :: rest =>
       match parseOpts optTok, parseAll (tokenize (" ".intercalate rest)) with
-      | some o, some req => answerWith o req
+      | some (o, m), some req => answerWith o m req
       | _, _ => "bad-op"
     | [] => "bad-op"
   else
     match parseAll (tokenize line) with
-    | some req => answerWith { little := false, orc := exactOrc } req
+    | some req => answerWith { little := false, orc := exactOrc } {} req
     | none => "bad-op"
 
 def main : IO Unit := serve answer
